@@ -106,7 +106,7 @@ def run(check):
                   "(inferred) / explicit outputSchema with and without the error flag / custom ids); each tree is run (a) through engine.New().Parse + Run with a file "
                   "cache built from an absolute and from a relative context directory, from different working directories (also changed between building the cache and parsing, with a decoy tree at the same relative path), from disk and from memory, several times, and (b) "
                   "directly through Prepare + Execute on the same text, and (c) one engine instance used for 2-3 trees in a row with equal file names, different contents, relative "
-                  "context directories and a refused tree in between; oracles: (a) == (b) == reference in id and data, outputIsError == declared flag (inferred: id is "
+                  "context directories and a refused tree in between, (d) one file cache object parsed and run repeatedly and by four goroutines at once, also with the main workflow registered under a key that equals the name of its loop's file, (e) input files with scalars a type-resolving reader would re-type, compared with direct execution on the same scalars; oracles: (a) == (b) == reference in id and data, outputIsError == declared flag (inferred: id is "
                   "'error'), identical results across working directories / cache kinds / repetitions; plus the real command line binary (scripted deployer registered by "
                   "an overlaid init) for the exit-code table 0 / 2 / 3 / 1 and the printed output id and data; distinct = (tree shape, output kind, access variant)")
     check.assumptions = ["exit code for an invalid *input* file is not asserted (the CLI reports it as a failed run)"]
@@ -118,6 +118,8 @@ def run(check):
                 ("rel+chdir-before-parse", {"cache": "context", "dir": "ctx", "rel_dir": True, "chdir": "one/two", "chdir_before_parse": "three/x/y"}),
                 # the files change on disk after the cache was loaded and the same cache object is loaded again
                 ("reloaded-after-change", {"cache": "context", "stale": True}),
+                # the same file cache object parsed and run three times in a row
+                ("same-cache-again", {"cache": "context", "again": 2}),
                 ("rel+chdir-before-parse+decoy", {"cache": "context", "dir": "ctx", "rel_dir": True, "chdir": "one/two", "chdir_before_parse": "p/q/r", "decoy": True})]
     metas = {}
     for i in range(n):
@@ -162,9 +164,73 @@ def run(check):
             scripts.update(e["_scripts"])
         seq_cases.append(({"id": "c20-q%04d" % k, "mode": "engine_seq", "files": {}, "scripts": scripts, "runs": [],
                            "extra": {"sequence": [{kk: v for kk, v in e.items() if not kk.startswith("_")} for e in elems]}}, elems))
+    # the caller registers the main workflow (in a sub-directory) under a key that is also the name of the file its loop runs;
+    # the same cache object is parsed and run three times: every time the main workflow is the main workflow
+    MAIN = ('version: v0.2.0\ninput: {root: RootObject, objects: {RootObject: {id: RootObject, properties: {tag: {type: {type_id: string}}}}}}\n'
+            'steps:\n  loop: {kind: foreach, workflow: %s, items: [{tag: !expr "$.input.tag"}, {tag: k}]}\noutputs:\n  success: {level: main, d: !expr "$.steps.loop.outputs.success.data"}\n')
+    SUB = ('version: v0.2.0\ninput: {root: Item, objects: {Item: {id: Item, properties: {tag: {type: {type_id: string}}}}}}\n'
+           'steps:\n  w: {plugin: {src: leaf_w, deployment_type: scripted}, input: {tag: !expr "$.input.tag"}}\noutputs:\n  success: {level: leaf, t: !expr "$.steps.w.outputs.success.tag"}\n')
+    clash_cases = []
+    for k, (key, subname) in enumerate([("workflow.yaml", "workflow.yaml"), ("sub.yaml", "sub.yaml"), ("workflow", "workflow"), ("wf", "sub.yaml")]):
+        for again, par in ((2, 0), (0, 4)):
+            clash_cases.append(({"id": "c20-k%03d" % len(clash_cases), "mode": "engine", "main": "flows/main.yaml", "files": {"flows/main.yaml": MAIN % subname, subname: SUB}, "scripts": {}, "runs": [],
+                                 "extra": {"engine": {"cache": "context", "main_key": key, "again": again, "parallel_parses": par, "input_yaml": "{tag: T}"}}}, key, subname, "again" if again else "parallel"))
+    # input files whose scalars a type-resolving YAML reader would re-type: through the engine API the workflow is given the same
+    # values as when the text of every scalar is handed to Execute directly
+    from ..model import InputSchema
+    tsch = InputSchema({"s": {"type": "string"}, "i": {"type": "integer"}, "fl": {"type": "float"}, "v": {"type": "string", "required": False}})
+    text_cases = []
+    for k, (text, strs) in enumerate([("s: 007\ni: 12\nfl: 1.5\n", {"s": "007", "i": "12", "fl": "1.5"}), ("s: 1.10\ni: 010\nfl: 1.50\nv: 0x1F\n", {"s": "1.10", "i": "010", "fl": "1.50", "v": "0x1F"}),
+                                      ("s: 1_000\ni: -07\nfl: 1e3\nv: 2001-01-01\n", {"s": "1_000", "i": "-07", "fl": "1e3", "v": "2001-01-01"}), ("{s: yes, i: '08', fl: '3.0', v: on}\n", {"s": "yes", "i": "08", "fl": "3.0", "v": "on"}),
+                                      ("s: plain\ni: 5\nfl: 0.5\n", {"s": "plain", "i": "5", "fl": "0.5"})]):
+        a = gen.plugin_step("a", Expr(In("s")), extra_input={"n": Expr(In("i")), "f": Expr(In("fl")), "a": Expr(In())})
+        prog = Program([a], {"success": {"a": Expr(Ref("a", "outputs", "success")), "all": Expr(In())}}, tsch)
+        sc = gen.make_scripts([a], {})
+        text_cases.append(({"id": "c20-t%03d-engine" % k, "mode": "engine", "files": prog.files(), "scripts": sc, "runs": [], "extra": {"engine": {"cache": "context", "input_yaml": text}}},
+                           {"id": "c20-t%03d-direct" % k, "files": prog.files(), "scripts": sc, "runs": [{"input": strs}]}, text))
     stats = {"trees": n, "engine_runs": 0, "direct_runs": 0, "error_flag_true": 0, "error_flag_false": 0, "cli_runs": 0, "rejected": 0}
     with harness.Runner(instrument=False) as rn:
         out = rn.run_cases(items, per_case_timeout=60)
+        kout = rn.run_cases([c for c, _k, _s, _h in clash_cases] + [c for pair in text_cases for c in pair[:2]], per_case_timeout=60)
+    for ce, cd, text in text_cases:
+        check.count()
+        oe, od = kout.get(ce["id"], {}), kout.get(cd["id"], {})
+        if "result" not in oe or "result" not in od:
+            check.inconclusive_case(ce["id"], "no result")
+            continue
+        re_, rd = (oe["result"].get("runs") or [{}])[0], (od["result"].get("runs") or [{}])[0]
+        if oe["result"].get("prepare_err") or od["result"].get("prepare_err") or (re_.get("out_id"), ref.denum(re_.get("data")), bool(re_.get("err"))) != (rd.get("out_id"), ref.denum(rd.get("data")), bool(rd.get("err"))):
+            check.report("api@input-file-differs-from-direct", "input file %r: the engine API returned (%r, %r, %s) but executing the prepared workflow on the same scalars returns (%r, %r, %s)" % (
+                text, re_.get("out_id"), re_.get("data"), (re_.get("err") or oe["result"].get("prepare_err") or "")[:100], rd.get("out_id"), rd.get("data"), (rd.get("err") or "")[:100]), {"case": ce})
+        elif re_.get("out_id") != "success":
+            check.fail_broken("input text case did not run: %r" % (re_,))
+        check.nontrivial("input-text|%d" % len(text))
+    for case, key, subname, how in clash_cases:
+        o = kout.get(case["id"], {})
+        check.count()
+        if "death" in o or "result" not in o:
+            d = o.get("death", {})
+            if d.get("kind") in ("panic", "fatal"):
+                check.report("api@key-clash:" + d["key"], "main workflow registered under the key %r, loop over the file %r (%s): process died: %s" % (key, subname, how, d.get("message", "")[:200]), {"case": case, "detail": d.get("detail", "")[:2000]})
+            else:
+                check.inconclusive_case(case["id"], str(d.get("key")))
+            continue
+        res = o["result"]
+        runs = res.get("runs") or []
+        if res.get("parse_err") or res.get("prepare_err") or not runs:
+            check.report("api@key-clash:refused", "main workflow registered under the key %r, loop over the file %r: refused: %s" % (key, subname, (res.get("parse_err") or res.get("prepare_err") or "no run")[:200]), {"case": case})
+            continue
+        for rr in runs:
+            data = ref.denum(rr.get("data")) or {}
+            if rr.get("out_id") != "success" or data.get("level") != "main" or len(data.get("d") or []) != 2:
+                check.report("api@key-clash:%s" % how, "main workflow registered under the key %r, loop over the file %r, run %r: expected the main workflow's output with two item results, got (%r, %r, %s)" % (
+                    key, subname, rr.get("tag") or "first", rr.get("out_id"), rr.get("data"), (rr.get("err") or "")[:150]), {"case": case})
+                break
+        keys = (res.get("extra") or {}).get("cache_keys")
+        if keys is not None and keys != 1:
+            check.report("api@caller-cache-modified", "the caller's file cache holds %d entries after Parse (it was built with one)" % keys, {"case": case})
+        check.nontrivial("key-clash|%s|%s|%s" % (key, subname, how))
+    with harness.Runner(instrument=False) as rn:
         seq_out = rn.run_cases([c for c, _e in seq_cases], per_case_timeout=120)
         cli_results = run_cli(check, rn, stats)
     for case, elems in seq_cases:
@@ -214,6 +280,10 @@ def run(check):
             continue
         run = res["runs"][0]
         exp = sem.result()
+        for later in res["runs"][1:]:
+            v = compare(exp, later)
+            if v:
+                check.report("api@same-cache-again:" + v[0], "tree %d (%s): the same file cache parsed and run again (%s): %s" % (i, g["shape"], later.get("tag"), v[1]), {"files": g["program"].files(), "variant": vname, "run": later})
         v = compare(exp, run)
         if v:
             check.report("api@%s:%s" % ("direct" if vname == "direct" else "engine", v[0]), "tree %d (%s) via %s: %s" % (i, g["shape"], vname, v[1]), {"files": g["program"].files(), "variant": vname, "run": run})
